@@ -179,8 +179,11 @@ func boundaryGen(r *rand.Rand, n int, tier string, emit func(Case)) {
 			g = l.any(4)
 		}
 		mk := 0
-		if r.Intn(4) == 0 {
+		switch r.Intn(8) {
+		case 0, 1:
 			mk = 1
+		case 2:
+			mk = 2 // general-position float image
 		}
 		c := pairCase(l, g, geom.Geometry{}, mk)
 		delete(c, "wb")
@@ -202,8 +205,11 @@ func boundaryExec(c Case) Event {
 	}
 	ev := boundaryOnPanic(c)
 	g0 := mustWKT(c.str("wa"))
-	f, _ := mapOf(c)
+	f, gp := mapOf(c)
 	inv := invOf(c)
+	if gp {
+		inv = snapLattice(inv) // boundary points are control points of the preimage
+	}
 	g := imageOf(g0, f)
 	ev["g"] = parts(g0)
 	ev["tree"] = typeTree(g)
